@@ -247,6 +247,7 @@ func checkC02(c *Ctx) {
 
 	// remap after a leave: indexes recorded for the remaining players are positions in the NEW list
 	checkLeaveRemap(c)
+	checkTableLookups(c, "R5", "FindPlayerIdx", "FindGamePlayerIdx", "GamePlayerIndex")
 	checkInPlaceFilter(c, "R4")
 	checkHandListStart(c, "R4")
 	// who is in the hand list at all: the dealt-in flags
